@@ -257,7 +257,17 @@ pub fn check_smt(choices: &Vec<u16>) -> Out {
     // a pool of keys with pairwise different most significant elements (multi-key leaves are
     // documented as unimplemented)
     let nkeys = 2 + ch.pick(7);
-    let keys: Vec<[Felt; 4]> = (0..nkeys).map(|i| [Felt::new(ch.felt()), Felt::new(ch.felt()), Felt::new(ch.felt()), Felt::new(1000 * (i as u64 + 1) + ch.pick(999) as u64)]).collect();
+    let mut keys: Vec<[Felt; 4]> = (0..nkeys).map(|i| [Felt::new(ch.felt()), Felt::new(ch.felt()), Felt::new(ch.felt()), Felt::new(1000 * (i as u64 + 1) + ch.pick(999) as u64)]).collect();
+    // the lower elements of a key sometimes repeat the leaf index (most significant element) of
+    // another key: a procedure that takes the leaf index from the wrong element then lands on an
+    // occupied leaf instead of an empty one
+    for i in 0..nkeys {
+        if ch.chance(1, 2) {
+            let j = ch.pick(nkeys);
+            let e = ch.pick(3);
+            keys[i][e] = keys[j][3];
+        }
+    }
     let mut smt = Smt::new();
     let npre = ch.pick(4);
     let mut entries: Vec<([u64; 4], [u64; 4])> = vec![];
